@@ -57,12 +57,29 @@ def spline_params(rng, zlo, zhi, n_sy=None, n_t=None, oscillating=False):
 
 
 def peatclsm_params(rng, zhi):
+    if rng.random() < 0.4:
+        # a calibration sweep: the published soil, another microtopography
+        return {
+            "specific_yield": {"type": "peatclsm", "sd": round(rng.uniform(0.05, 1.0), 3), "theta_s": 0.88, "b": 7.4, "psi_s": -0.024},
+            "transmissivity": {"type": "peatclsm", "Ksmacz0": 7.3, "alpha": rng.choice([3, 3.0, 2.5]),
+                               "zeta_max_cm": round(max(1.0, zhi / 10 + rng.uniform(0.5, 20)), 1)},
+        }
     return {
         "specific_yield": {"type": "peatclsm", "sd": round(rng.uniform(0.05, 1.0), 3), "theta_s": round(rng.uniform(0.3, 0.95), 3),
                            "b": round(rng.uniform(1.0, 12.0), 2), "psi_s": -round(rng.uniform(0.01, 0.5), 3)},
         "transmissivity": {"type": "peatclsm", "Ksmacz0": round(10 ** rng.uniform(-1, 1.5), 3),
                            "alpha": round(rng.uniform(1.5, 6.0), 2), "zeta_max_cm": round(zhi / 10 + rng.uniform(0.5, 20), 1)},
     }
+
+
+def dirty_heap(rng, n):
+    """What a long session leaves behind: freed arrays of the size about to be allocated, holding values of
+    earlier, unrelated computations (non-finite results of rejected trials, squared epochs).  A result that
+    depends on them reads memory it never wrote."""
+    for size in (n, n - 1, n + 1):
+        if size > 0:
+            junk = np.full(size, rng.choice([np.nan, np.inf, -np.inf, 1e300, 2.5e18, -7e17]))
+            del junk
 
 
 def make_functions(params):
